@@ -305,6 +305,7 @@ func stringContents(c *engine.Ctx) {
 		Set  func(p, f *sbom.Node, v string)
 	}
 	slots := []slot{
+		{"pkg.hash.raw", func(p, f *sbom.Node, v string) { p.Hashes = map[int32]string{int32(sbom.HashAlgorithm_SHA1): v, int32(sbom.HashAlgorithm_MD5): v} }},
 		{"pkg.name", func(p, f *sbom.Node, v string) { p.Name = v }},
 		{"pkg.version", func(p, f *sbom.Node, v string) { p.Version = v }},
 		{"pkg.url_home", func(p, f *sbom.Node, v string) { p.UrlHome = v }},
